@@ -190,6 +190,15 @@ def Queue.run (q : Queue) : List Op → Queue × List Out
     let (q'', os) := q'.run ops
     (q'', o :: os)
 
+/-- ATT Handle Value Confirmation (opcode 0x1E, the PDU is dispatched here by its first byte).
+    src: server.hpp:server::handle_value_confirmation — `if ( in_size != 1 ) return error_response(
+    *input, invalid_pdu /* 0x04 */ )`, otherwise no response and the link layer's callback is called
+    with `notification_type::confirmation`, which calls `indication_confirmed()` on the queue -/
+def handleValueConfirmation (q : Queue) : List UInt8 → Queue × List UInt8
+  | [] => (q, [])
+  | [_] => ((q.step .conf).1, [])
+  | op :: _ :: _ => (q, [0x01, op, 0x00, 0x00, 0x04])
+
 /-! ### Specification: a set of pending (characteristic, kind) requests
 
   Per priority level a list of slots (`n`/`i` = the characteristic has a pending notification /
